@@ -26,6 +26,10 @@ def discharge(ob, timeout_ms=10000):
         ob.result, ob.backend, ob.seconds = "discharged", "simplifier", time.time() - t0
         return ob
     s = _solver(ob.pc, ob.goal, timeout_ms)
+    dump = os.environ.get("PYVC_DUMP")
+    if dump and dump in ob.id:
+        with open(os.path.join(os.environ.get("PYVC_DUMP_DIR", "/tmp"), ob.id.replace("/", "_") + ".smt2"), "w") as f:
+            f.write("(set-logic ALL)\n" + s.to_smt2())
     r = s.check()
     ob.backend = "z3-" + z3.get_version_string()
     if r == z3.unsat:
